@@ -237,7 +237,7 @@ PROPS = {
         "units": ["V6_api", "V2_reindex", "V3_remap", "V12_sections", "V6b_api2"],
         "obligations": ["V6_api.convert_import_fn_to_local.*", "V6_api.fn:Module::convert_import_fn_to_local", "V6_api.delete_func.*", "V6_api.fn:Module::delete_func",
                         "V6_api.fn:Function::set_kind", "V6_api.fn:Functions::get_mut", "V6_api.Functions.get_fid_of_import.*", "V6_api.fn:Functions::get_fid_of_import", "V6_api.fn:lemma_first_defined_by", "V6_api.ModuleImports.delete.*", "V6_api.fn:ModuleImports::delete",
-                        "V6_api.replace_import.*", "V6_api.fn:FunctionBuilder::replace_import_in_module_with_tag", "V6_api.fn:ModuleImports::get", "V6_api.fn:Types::params", "V6_api.fn:Types::results"]
+                        "V6_api.replace_import.*", "V6_api.fn:FunctionBuilder::replace_import_in_module_with_tag", "V6_api.replace_import_untagged.*", "V6_api.fn:FunctionBuilder::replace_import_in_module", "V6_api.fn:ModuleImports::get", "V6_api.fn:Types::params", "V6_api.fn:Types::results"]
                        + V2_GENERIC + v2_inst("Function", "Functions") + ["V3_remap.update_fn_instr.*", "V3_remap.fn:update_fn_instr", "V3_remap.refers_to_func.*"],
         "obligations_extra": V12_ELEMS + V12_CEXPR + V12_EXPORTS + V12_START,
         "glue": [ENCODE_GLUE, "FunctionBuilder::replace_import_in_module_with_tag is under contract; ASSUMED there: the element-wise `==` of two Vec<DataType> (named same_signature by R11), str::to_string, and ModuleTypes::get in terms of the abstract signature lookup (the concrete table is V7's)"],
@@ -294,7 +294,7 @@ PROPS = {
     "C12": {
         "title": "Built functions appear exactly as built",
         "units": ["V4_inject", "V1_locals", "V6_api", "V7_types", "V11_emit"],
-        "obligations": ["V6_api.finish_module.*", "V6_api.fn:FunctionBuilder::finish_module_with_tag", "V6_api.finish_component.*", "V6_api.fn:FunctionBuilder::finish_component_with_tag", "V6_api.add_local_func.*", "V6_api.fn:Module::add_local_func_with_tag",
+        "obligations": ["V6_api.finish_module.*", "V6_api.fn:FunctionBuilder::finish_module_with_tag", "V6_api.finish_component.*", "V6_api.fn:FunctionBuilder::finish_component_with_tag", "V6_api.finish_module_untagged.*", "V6_api.fn:FunctionBuilder::finish_module", "V6_api.finish_component_untagged.*", "V6_api.fn:FunctionBuilder::finish_component", "V6_api.add_local_func.*", "V6_api.fn:Module::add_local_func_with_tag",
                         "V6_api.Functions.add_local_func.*", "V6_api.fn:Functions::add_local_func", "V6_api.fn:LocalFunction::new", "V6_api.LocalFunction.*",
                         "V6_api.kf.convert_local_fn_to_import.keeps_function_space_well_formed",
                         "V7_types.add_func_type.*", "V7_types.fn:ModuleTypes::add_func_type", "V7_types.add_type.*", "V7_types.fn:ModuleTypes::add_type",
